@@ -532,6 +532,18 @@ impl Tcp {
         Some(sock.assign_seq())
     }
 
+    /// The host's software is about to be torn down (crash or bounce): nothing
+    /// on this host will ever read from its streams again. A peer parked in
+    /// `write` on a window full of segments that are still in flight would
+    /// otherwise wait forever -- the teardown sends a FIN (there is nothing
+    /// unread to reset for), which does not concern a writer, and segments
+    /// are not delivered to a host that is down.
+    pub(crate) fn fail_peer_writers(&self) {
+        for sock in self.sockets.values() {
+            sock.flow_control.reset_peer_writer();
+        }
+    }
+
     /// Whether the stream socket registered under `pair` is the one the
     /// stream half holding `half` belongs to.
     ///
